@@ -166,7 +166,8 @@ def run(ctx):
             nproc += 1
             org = errflow.origins(F, v)
             ctx.ob(not org, '%s never returns Err (%s)' % (short(p, 3), sorted(org)[:3]), 'loop|process|' + short(p, 4), loc=v.loc())
-    ctx.floor(nproc, 8, 'per-state process functions (both drivers)')
+    if ctx.config == 'all':
+        ctx.floor(nproc, 8, 'per-state process functions (both drivers)')
     # both loops: done := true, reset to false only when the transition succeeded and the state is not Shutdown
     nloop = 0
     for v in F.all_fns():
@@ -178,7 +179,8 @@ def run(ctx):
             falses = [b for b, e in var_inits(v, 'done') if show(e) == 'False' and guard_strs(v, b)]
             okl = bool(falses) and all(guarded_any(v, b, [r'^Result::is_ok\(MqttClientImpl::transition_to_state\(']) and guarded_any(v, b, [r'^!\(.* == ClientImplState::Shutdown\{\}\)$', r' != ClientImplState::Shutdown']) for b in falses)
             ctx.ob(okl, '%s keeps looping exactly when the transition succeeded and did not reach Shutdown' % short(p, 3), 'loop|done|' + short(p, 4), loc=v.loc())
-    ctx.floor(nloop, 2, 'client event loops')
+    if ctx.config == 'all':
+        ctx.floor(nloop, 2, 'client event loops')
 
     # ------------------------------------------------------------ R-C12-5
     ctx.rule('R-C12-5', 'T1 who-may-write', 'desired state is written only by Start/Stop/Shutdown requests; stop options are cleared by Start, by a new connection attempt and on reaching Stopped; Shutdown resets the engine')
